@@ -197,8 +197,8 @@ pub fn describe_calling_process(args: &[String]) -> ProcessArgs<CallingProcess> 
                     Some("show") => {
                         let command_line = parse_command_line(args);
                         let filename = if let Some(last_arg) = &command_line.last_arg {
-                            match last_arg.split_once(':') {
-                                Some((_, filename)) => Path::new(filename)
+                            match path_of_rev_path_argument(last_arg) {
+                                Some(filename) => Path::new(filename)
                                     .file_name()
                                     .map(|f| f.to_string_lossy().to_string()),
                                 None => None,
@@ -248,6 +248,25 @@ pub fn describe_calling_process(args: &[String]) -> ProcessArgs<CallingProcess> 
             ProcessArgs::OtherProcess
         }
     }
+}
+
+// The path of a `<rev>:<path>` argument of git show. A colon does not always separate a revision
+// from a path: `:/<text>` names a commit by its message, and the colons of `HEAD@{10:00:00}` or
+// `HEAD^{/fix: x}` are part of the revision.
+fn path_of_rev_path_argument(arg: &str) -> Option<&str> {
+    if arg.starts_with(":/") {
+        return None;
+    }
+    let mut depth = 0usize;
+    for (i, c) in arg.char_indices() {
+        match c {
+            '{' => depth += 1,
+            '}' => depth = depth.saturating_sub(1),
+            ':' if depth == 0 => return Some(&arg[i + 1..]),
+            _ => {}
+        }
+    }
+    None
 }
 
 fn is_git_binary(git: &str) -> bool {
